@@ -687,13 +687,51 @@ def stale_handles(ctx):
     ctx.count("stale-handle-histories", n)
 
 
+def coupled_sums(ctx):
+    """row heights / column widths and the frame size derived from them: every ordered pair of edge values on two rows
+    (columns) of a fresh table; an assignment that is refused - because the value or the TOTAL it produces cannot be
+    written - must leave every reading as it was; an accepted one must leave the frame equal to the sum"""
+    from pptx import Presentation
+
+    vals = [0, 1, -1, 27273042316900, 27273042316901, -27273042316900, 13636521158450, 2**31, -2**31]
+    prs = Presentation()
+    slide = prs.slides.add_slide(prs.slide_layouts[6])
+    for axis in ("rows", "columns"):
+        attr = "height" if axis == "rows" else "width"
+        for v1 in vals:
+            for v2 in vals:
+                gf = slide.shapes.add_table(2, 2, 0, 0, 2000, 2000)
+                items = list(getattr(gf.table, axis))
+                hist = []
+                for it, v in ((items[0], v1), (items[1], v2), (items[0], 0)):
+                    before = ([getattr(x, attr) for x in items], getattr(gf, attr))
+                    try:
+                        setattr(it, attr, v)
+                        ok = True
+                    except (TypeError, ValueError):
+                        ok = False
+                    hist.append((v, ok))
+                    after = ([getattr(x, attr) for x in items], getattr(gf, attr))
+                    ctx.case(key=("coupled", axis, v1, v2, len(hist)))
+                    if not ok and after != before:
+                        ctx.fail(f"{axis[:-1]}.{attr}:rejected-but-changed", f"table {axis} {attr}: history {hist}: the last assignment was refused but the readings "
+                                 f"changed from {before} to {after}", {"axis": axis, "history": str(hist)})
+                        break
+                    if ok and after[1] != sum(after[0]):
+                        ctx.fail(f"{axis[:-1]}.{attr}:frame-not-sum", f"table {axis} {attr}: history {hist}: frame {attr} {after[1]} != sum {sum(after[0])}", {"axis": axis, "history": str(hist)})
+                        break
+                gf._element.getparent().remove(gf._element)
+    ctx.count("coupled-sum-histories", 2 * len(vals) ** 2)
+
+
 def correspond(ctx):
     from pptx import Presentation
 
     conversions(ctx)
+    coupled_sums(ctx)
     stores(ctx)
     rng = ctx.rng
-    reps = 3 if ctx.quick else 20
+    reps = 6 if ctx.quick else 20
     for r in range(reps):
         prs = build_deck()
         label = f"generated#{r}"
@@ -707,7 +745,7 @@ def correspond(ctx):
             td, n = thin(b.getvalue(), rng)
             prs = Presentation(io.BytesIO(td))
             label += f"(thinned, {n} removed)"
-        rec = exercise(ctx, prs, label, rng, 500 if ctx.quick else 1500)
+        rec = exercise(ctx, prs, label, rng, 800 if ctx.quick else 1500)
         reopen_check(ctx, prs, label, rec)
     for r in range(1 if ctx.quick else 6):
         # optional elements ADDED that other producers write (extension lists, children taken from PowerPoint-authored parts)
